@@ -137,6 +137,42 @@ def _fallback(ctx, repo):
         ctx.ob("C05-R2", f.fq, "an interpreter path follows the try", True if lst else False, node=tr, construct=f"interpreter path after try ({arm})")
 
 
+def _atomic_fragment(fm):
+    """the emitted text is a primary expression whatever it is nested under: `( ... )`, a call `name( ... )`, or a parenthesised
+    primary followed only by attribute / call postfixes (`( ... ).cumsum(0)`, `( ... ).{op}`)"""
+    t = fm.replace("{op}", "op").replace("{", "").replace("}", "")
+    i = 0
+    # optional dotted name before the first parenthesis (a call)
+    while i < len(t) and (t[i].isalnum() or t[i] in "._"):
+        i += 1
+    if i >= len(t) or t[i] != "(":
+        return False
+    depth = 0
+    while i < len(t):
+        if t[i] == "(":
+            depth += 1
+        elif t[i] == ")":
+            depth -= 1
+            if depth == 0:
+                rest = t[i + 1:]
+                if not rest:
+                    return True
+                if not rest.startswith("."):
+                    return False
+                # postfix chain: .name or .name( ... ) repeated
+                j = 1
+                while j < len(rest) and (rest[j].isalnum() or rest[j] in "._"):
+                    j += 1
+                if j == len(rest):
+                    return True
+                if rest[j] != "(":
+                    return False
+                t, i, depth = rest, j, 0
+                continue
+        i += 1
+    return False
+
+
 # ------------------------------------------------------------------ R3 / R6
 def _ir_tables(ctx, repo):
     built = tables.ir_tags_built(repo)
@@ -158,17 +194,11 @@ def _ir_tables(ctx, repo):
         # indexing within arity; decline path present where a table lookup can miss
         for tag, d in e.items():
             ar = built.get(tag)
-            idx = [n.slice.value for s in d["node"].body for n in walk_local(s) if isinstance(n, ast.Subscript) and isinstance(n.value, ast.Name) and n.value.id == "ir" and isinstance(n.slice, ast.Constant)]
+            idx = sorted(d["indices"])
             ok = ar is not None and all(0 < i < ar for i in idx)
-            ctx.ob("C05-R3", fq, f"tag '{tag}': tuple arity {ar} covers the indices used {sorted(set(idx))}", ok, node=d["node"], construct=f"{name} '{tag}' arity")
+            ctx.ob("C05-R3", fq, f"tag '{tag}': tuple arity {ar} covers the indices used {idx}", ok, node=d["node"], construct=f"{name} '{tag}' arity")
             if d["ops"] is not None:
-                # the variable bound to the table lookup (`x = {...}.get(op)`) and an `if x is None: return None` on it
-                lk = [n.targets[0].id for s in d["node"].body for n in walk_local(s) if isinstance(n, ast.Assign) and isinstance(n.targets[0], ast.Name) and
-                      isinstance(n.value, ast.Call) and isinstance(n.value.func, ast.Attribute) and n.value.func.attr == "get" and
-                      (isinstance(n.value.func.value, ast.Dict) or isinstance(n.value.func.value, ast.Name))]
-                declines = any(isinstance(n, ast.If) and any(src(n.test) == f"{v} is None" for v in lk) and
-                               any(isinstance(r, ast.Return) and isinstance(r.value, ast.Constant) and r.value.value is None for r in n.body)
-                               for s in d["node"].body for n in walk_local(s))
+                declines = d["declines"]
                 if tag not in tag_set:
                     ctx.ob("C05-R3", fq, f"tag '{tag}': the operator set guarding its production is known", False, node=d["node"], construct=f"{name} '{tag}' operator set unknown",
                            msg=f"the front end produces '{tag}' without a single operator-set membership guard, so the emit table cannot be compared with what is admitted")
@@ -183,7 +213,7 @@ def _ir_tables(ctx, repo):
             for fm in d["formats"]:
                 if fm in ("repr",) or fm.startswith("{ir["):
                     continue
-                ok = (fm.startswith("(") and fm.endswith(")")) or (fm.endswith(")") and "(" in fm and not fm.startswith("-")) or fm.endswith(".values") or "{method}" in fm and fm.startswith("(")
+                ok = _atomic_fragment(fm)
                 ctx.ob("C05-R6", fq, f"tag '{tag}': emitted fragment `{fm}` is parenthesised or a call", ok, node=d["node"], construct=f"{name} '{tag}' fragment parenthesised",
                        msg=f"the fragment `{fm}` is emitted without enclosing parentheses: nested under an operator of higher precedence (e.g. (-a)^2 -> -a**2) Python re-associates it and the compiled value differs from the interpreter's")
     # sibling diff of the two backends
@@ -227,7 +257,7 @@ def _ir_tables(ctx, repo):
     for name, e in emits.items():
         for tag in ("binop", "cmp"):
             fm = (e.get(tag, {}).get("formats") or [""])[0]
-            ok = "{l}" in fm and "{r}" in fm and fm.index("{l}") < fm.index("{r}")
+            ok = "{ir2}" in fm and "{ir3}" in fm and fm.index("{ir2}") < fm.index("{ir3}")
             ctx.ob("C05-R3", NP_EMIT if name == "numpy" else TORCH_EMIT, f"'{tag}' emits the left operand before the right", ok, construct=f"{name} '{tag}' operand order")
     # compile_expr pairs parameter names with var_syms in insertion order
     ce = repo.fn("compiler:compile_expr")
@@ -471,7 +501,7 @@ def _admission(ctx, repo):
     for n in walk_local(f.node):
         if isinstance(n, ast.If) and (val in src(n.test) or any(t in src(n.test) for t in tv)):
             tests.append(n)
-    ctx.floor("C05-R5", "admission tests on the variable's value", len(tests), 2)
+    ctx.floor("C05-R5", "admission tests on the variable's value", len(tests), 1)
     for t in tests:
         bad = []
         for c in ast.walk(t.test):
